@@ -37,7 +37,10 @@ package lexer
 //@   ensures[C11] bnd: result == nil ==> boundAt(l.expression, l.position) && aligned(t.Value)
 //@   ensures result == nil ==> t.Type == const("lexer.QuotedIdentifierToken") && same(t.Value, l.expression[start:l.position]) && l.position > next && l.position <= len(l.expression) && l.expression[l.position - 1] == '"'
 //@   ensures l.expression == old(l.expression) && (result != nil ==> l.position == old(l.position))
+//@   requires[C04 C16] first: ridx(l.expression, lo(l.expression) + next) == ridx(l.expression, lo(l.expression) + start) + 1
+//@   ensures[C04 C16] nocontrol: result == nil ==> (forall j Int :: {unit(l.expression, j)} ridx(l.expression, lo(l.expression) + start) < j && j < ridx(l.expression, lo(l.expression) + l.position) ==> unit(l.expression, j) >= 32)
 //@   loop 1
+//@     invariant[C04 C16] nocontrol: forall j Int :: {unit(l.expression, j)} ridx(l.expression, lo(l.expression) + start) < j && j < ridx(l.expression, lo(l.expression) + next) ==> unit(l.expression, j) >= 32
 //@     invariant[C11] bnd: boundAt(l.expression, next)
 //@     invariant start < next && next <= len(l.expression) && next >= next0 && l.position == old(l.position) && l.expression == old(l.expression)
 //@     decreases len(l.expression) - next
